@@ -8,8 +8,10 @@ ASSUMPTIONS = ["the Go memory model and scheduler are not in the model: a data r
 TRUSTED_EXTRA = ["/verif/scanner: translator from the Go source to Generated/Footprint.v (run on every check)"]
 
 SOURCES = ["find all @/(a)(b)(c)\\3\\2\\1/", "find all @/((a)|b)+c/", "find all 'a' or 'b'", "set p to pattern at least 1 digit\nfind all p '-' p",
-           "find all {'(' maybe s ')'} = s", "replace all (letter = x) x with x", "find all @/(x)(y)?/", "find all ("]
-TEXTS = ["abccba", "aabc", "12-34", "(())", "aa bb", "xy"]
+           "find all {'(' maybe s ')'} = s", "replace all (letter = x) x with x", "find all @/(x)(y)?/", "find all (",
+           # group numbers run across all regex literals of one source: numbering must be atomic per Compile
+           "find all @/(a)(b)/ '-' @/(c)(d)/", "find all @/a/ @/(b)\\1/ @/(c)\\2/", "find all @/(a)/\nfind all @/(b)(c)\\3/", "find all @/(a)(b)/ @/\\3/"]
+TEXTS = ["abccba", "aabc", "12-34", "(())", "aa bb", "xy", "ab-cd", "abbcc"]
 
 
 def generate_footprint():
@@ -81,7 +83,7 @@ def run(ctx):
     ctx.coverage["distinct_nontrivial"] = ev
     ctx.coverage["race_rounds"] = rounds
     ctx.coverage["rule"] = ("source scan of all libvore packages on every run (package-level variables, their readers/writers, reachability from the entry points outside a mutex, "
-                            "engine writes through bytecode/ast values) + rounds of %d goroutines compiling %d sources (with and without regex groups, one rejected) and running shared and "
+                            "engine writes through bytecode/ast values) + rounds of %d goroutines compiling %d sources (with and without regex groups, several regex literals in one source, rejected ones) and running shared and "
                             "private programs under the race detector, every result compared with the sequential one; evaluations = concurrent library calls" % (cases[0]["goroutines"], len(SOURCES)))
     ctx.sample({"sources": SOURCES[:3], "texts": TEXTS[:2], "goroutines": cases[0]["goroutines"]})
 
